@@ -375,7 +375,8 @@ def edge_emission(F, R, rule, fnlabel, b, need_both=True):
         src = strip_load(it.source)
         owner = strip_load(src[1])
         p = it.item_pred()
-        evs = it.body_events()
+        # what is traced under a log-level test is not part of the listing
+        evs = [e for e in it.body_events() if not any("Level" in repr(f) for f in e.facts)]
         lab = [e for e in evs if any(mentions(a, lambda x: x[0] == "field" and x[2] == "(tuple)::0" and mentions(x[1], p)) for a in e.args)]
         tgt = [e for e in evs if any(mentions(a, lambda x: x[0] == "field" and x[2] == "(tuple)::1" and mentions(x[1], p)) for a in e.args)]
         whole = [e for e in evs if e not in lab and e not in tgt]
@@ -688,7 +689,7 @@ def in2(F, R):
                     line_pushes.append(e)
             # what goes into the text of the line: arguments of the formatting machinery, not the bookkeeping around it
             # (`seen.contains(e.1)`, the recursive call) which also mentions the target
-            fmt = [e for e in it.body_events() if e.kind == "call" and ("fmt::" in e.path or e.name in ("to_string", "push_str", "write_str", "write_fmt")
+            fmt = [e for e in it.body_events() if e.kind == "call" and not any("Level" in repr(f) for f in e.facts) and ("fmt::" in e.path or e.name in ("to_string", "push_str", "write_str", "write_fmt")
                                                                        or (e.name in ("push", "push_back", "extend") and e in pushes))]
             def printed(a, pred):
                 """pred holds for a sub-expression that is printed as such: not one that only feeds a call of the crate's own
